@@ -22,7 +22,9 @@ RULE = ('random rasters up to 6x6: zone ids from a small alphabet (negative, fra
         'with duplicates); agg count/percentage (2-D) and the seven aggregates (3-D; category dimension first, in the MIDDLE or last, '
         'addressed by `layer` as positive, negative or default index, on square and non-square rasters); zones and values '
         'INDEPENDENTLY in memory layout C / Fortran copy / reversed-axes view / strided view (Dask: also a lazily transposed '
-        'array); NumPy backend on '
+        'array); dimension names equal / different / swapped between zones and values (the call is positional); every pair of '
+        'zones x values dtype over float64/float32/int8..64/uint8..64; zone_ids / cat_ids also empty, fractional on integer '
+        'rasters, negative; a stream with zone ids and categories above 2**24 / 2**53 (exact ints, adjacent); NumPy backend on '
         'every case and the Dask backend (one chunking) on about one in seven. The thorough tier enumerates every ordered sub-list '
         'of zone ids x every ordered sub-list of categories for rasters with <= 3 zones and <= 3 categories. Named hard cases: '
         'a skipped category that is present below a selected one, zone_ids in descending order. Non-trivial: at least one '
@@ -105,8 +107,7 @@ def gen_case(rng, quick, i):
     three_d = rng.random() < 0.3
     if three_d and rng.random() < 0.45:
         rows = cols = rng.randint(2, 5)          # square rasters: a swap of the spatial axes does not change the shape
-    zd = c02.ZD[i % 4]
-    vd = c02.VD[(i // 4) % 4]
+    zd, vd = c02.pick_dtypes(i)
     zones, alphabet = c02.gen_zones(rng, rows, cols, zd)
     present = c02.finite_zone_ids(zones)
     u = rng.random()
@@ -115,7 +116,11 @@ def gen_case(rng, quick, i):
         zone_ids = zone_ids + [NAN]
     if zone_ids is not None and len(present) >= 2 and rng.random() < 0.15:
         zone_ids = maybe_int(rng, sorted(present, reverse=True))         # named hard case: descending order
+    if zone_ids is not None and rng.random() < 0.03:
+        zone_ids = []
     case = dict(fn='crosstab', zones=zones, zdtype=zd, vdtype=vd, zone_ids=zone_ids)
+    case['dimnames'] = rng.choice([None, None, [['lat', 'lon'], ['lat', 'lon'], 'band'], [['y', 'x'], ['row', 'col'], 'layer'],
+                                   [['x', 'y'], ['y', 'x'], 'cat'], [['a', 'b'], ['b', 'a'], 'y']])
     if not three_d:
         values = c02.gen_values(rng, rows, cols, vd, small=True)
         cats = sorted({v for row in values for v in row if isfin(v)})
@@ -125,9 +130,11 @@ def gen_case(rng, quick, i):
         if u < 0.35:
             cat_ids = None
         else:
-            cat_ids = maybe_int(rng, sub_list(rng, cats, [7.0, 99.0], False))
+            cat_ids = maybe_int(rng, sub_list(rng, cats, [7.0, 99.0, 2.5, -1.0], False))
             if rng.random() < 0.05:
                 cat_ids = cat_ids + [NAN]
+            if rng.random() < 0.03:
+                cat_ids = []
         case.update(values=values, nodata=nodata, cat_ids=cat_ids, agg='percentage' if rng.random() < 0.4 else 'count', ndim=2)
     else:
         nl = rng.randint(1, 4)
@@ -183,25 +190,27 @@ def layer_position(case):
 
 def build_inputs(case):
     zl, vl = case.get('zlayout', 'C'), case.get('vlayout', 'C')
+    zdims, vdims, cname = case.get('dimnames') or [['y', 'x'], ['y', 'x'], 'cat']
+    zdims, vdims = list(zdims), list(vdims)
     z = np_array(case['zones'], case['zdtype'])
     dask = case['backend'] == 'dask'
     ch = tuple(case['chunks']) if dask else None
     if dask:
-        zz = xr.DataArray(dask_of(z, ch, zl), dims=['y', 'x'])
+        zz = xr.DataArray(dask_of(z, ch, zl), dims=zdims)
     else:
-        zz = xr.DataArray(layout_nd(z, zl), dims=['y', 'x'])
+        zz = xr.DataArray(layout_nd(z, zl), dims=zdims)
     if case['ndim'] == 2:
         v = np_array(case['values'], case['vdtype'])
         if dask:
             vch = tuple(case.get('vchunks', case['chunks']))
-            return zz, xr.DataArray(dask_of(v, vch, vl), dims=['y', 'x']), None
-        return zz, xr.DataArray(layout_nd(v, vl), dims=['y', 'x']), None
+            return zz, xr.DataArray(dask_of(v, vch, vl), dims=vdims), None
+        return zz, xr.DataArray(layout_nd(v, vl), dims=vdims), None
     pos = layer_position(case)
     v = np.moveaxis(np.stack([np_array(L, case['vdtype']) for L in case['layers']], axis=0), 0, pos)
-    dims = ['y', 'x']
-    dims.insert(pos, 'cat')
+    dims = list(vdims)
+    dims.insert(pos, cname)
     layer = case['layer'] if 'layer' in case else (None if pos == 0 else pos)
-    coords = {'cat': list(case['labels'])}
+    coords = {cname: list(case['labels'])}
     if dask:
         if 'vchunks' in case:
             vchunks = list(tuple(case['vchunks']))
@@ -213,25 +222,34 @@ def build_inputs(case):
     return zz, xr.DataArray(layout_nd(v, vl), dims=dims, coords=coords), layer
 
 
-def run_impl(case):
+def call_impl(case):
+    """the crosstab result as returned (a lazy dask DataFrame on the Dask backend)"""
     from xrspatial.zonal import crosstab
     z, v, layer = build_inputs(case)
-    df = crosstab(z, v, zone_ids=case['zone_ids'], cat_ids=case['cat_ids'], layer=layer, agg=case['agg'],
-                  nodata_values=case['nodata'])
+    return crosstab(z, v, zone_ids=case['zone_ids'], cat_ids=case['cat_ids'], layer=layer, agg=case['agg'],
+                    nodata_values=case['nodata'])
+
+
+def run_impl(case):
+    df = call_impl(case)
     if case['backend'] == 'dask':
         df = df.compute()
+    return canon_df(df)
+
+
+def canon_df(df):
     cols = list(df.columns)
     if not cols or cols[0] != 'zone':
         raise AssertionError('columns %r' % cols)
-    return dict(cols=[float(c) for c in cols[1:]],
-                rows=[(float(df['zone'].iloc[i]), [float(df.iloc[i, j]) for j in range(1, len(cols))]) for i in range(len(df))])
+    return dict(cols=[c02.num(c) for c in cols[1:]],
+                rows=[(c02.num(df['zone'].iloc[i]), [float(df.iloc[i, j]) for j in range(1, len(cols))]) for i in range(len(df))])
 
 
 # --------------------------------------------------------------------------- oracle (property text)
 def requested_cats(existing, cat_ids):
     if cat_ids is None:
         return list(existing)
-    return [float(c) for c in cat_ids if any(float(c) == e for e in existing)]
+    return [c02.exact(c) for c in cat_ids if any(c02.exact(c) == e for e in existing)]
 
 
 def in_cat_class(case, existing):
@@ -244,14 +262,14 @@ def in_zone_class(case):
     if case['zone_ids'] is None:
         return False
     present = c02.finite_zone_ids(case['zones'])
-    req = [float(z) for z in case['zone_ids'] if any(float(z) == p for p in present)]
+    req = [c02.exact(z) for z in case['zone_ids'] if any(c02.exact(z) == p for p in present)]
     return any(a >= b for a, b in zip(req, req[1:]))
 
 
 def expectation(case):
     """(columns, rows) demanded by the property text; entries are Fractions, None = NaN, 'raise' for the NumPy zero-size reduction"""
     zones, nodata = case['zones'], case['nodata']
-    nd = None if nodata is None else float(nodata)
+    nd = None if nodata is None else c02.exact(nodata)
     rows = c02.requested_rows(zones, case['zone_ids'])
     if case['ndim'] == 2:
         values = case['values']
@@ -266,7 +284,7 @@ def expectation(case):
             else:
                 out.append((z, [None if total == 0 else Fraction(cnt.get(c, 0) * 100, total) for c in cols]))
         return cols, out, existing
-    labels = [float(l) for l in case['labels']]
+    labels = [c02.exact(l) for l in case['labels']]
     cols = requested_cats(labels, case['cat_ids'])
     out = []
     for z in rows:
@@ -332,10 +350,18 @@ def oracle(ctx, case, out):
 
 
 # --------------------------------------------------------------------------- model
+def cat_ids_tok(cat_ids):
+    """categories are integers in the model: a fractional requested id can match no cell and is sent as NaN"""
+    if cat_ids is None:
+        return '-1'
+    ids = [c02.exact(c) for c in cat_ids]
+    return '%d %s' % (len(ids), ' '.join('nan' if (isinstance(c, float) and isfin(c) and c != int(c)) else xvio.tok(c, 1) for c in ids))
+
+
 def model_line(case):
     s = c02.zone_scale(case['zones'], [z for z in (case['zone_ids'] or []) if isfin(float(z))])
     zs = [z for row in case['zones'] for z in row]
-    cid = '-1' if case['cat_ids'] is None else xvio.lst([float(c) for c in case['cat_ids']], 1)
+    cid = cat_ids_tok(case['cat_ids'])
     head = '%s %s %s' % (c02.nodata_tok(case['nodata']), c02.ids_tok(case['zone_ids'], s), cid)
     if case['ndim'] == 2:
         return 'x2 %s %s %s' % ('pct' if case['agg'] == 'percentage' else 'count', head,
@@ -403,6 +429,10 @@ def one(ctx, case, pending):
     ctx.count('%s/%dD/%s/%s/%s' % (case['backend'], case['ndim'], case['agg'], 'zids' if case['zone_ids'] is not None else 'allz',
                                    'cids' if case['cat_ids'] is not None else 'allc'))
     ctx.count('layout/zones=%s/values=%s' % (case.get('zlayout', 'C'), case.get('vlayout', 'C')))
+    if case.get('bigids'):
+        ctx.count('hard/ids-and-categories-above-2^24-or-2^53')
+    if case.get('dimnames'):
+        ctx.count('dims/%s' % '-'.join(case['dimnames'][0] + case['dimnames'][1] + [case['dimnames'][2]]))
     if case['ndim'] == 3:
         ctx.count('3d/cat-dim-position=%d/layer=%r/%s' % (layer_position(case), case.get('layer'),
                                                            'square' if len(case['zones']) == len(case['zones'][0]) else 'non-square'))
@@ -432,12 +462,40 @@ def one(ctx, case, pending):
     pending.append((line, s, case, out))
 
 
+def gen_big_case(rng, i):
+    """2-D crosstab with zone ids AND categories above 2**24 / 2**53 (adjacent ids), exact Python ints in int64/uint64 rasters"""
+    rows, cols = rng.randint(1, 4), rng.randint(2, 5)
+    zd = ['int64', 'uint64', 'float64', 'int64'][i % 4]
+    vd = ['int64', 'int64', 'uint64', 'float64'][(i // 4) % 4]
+    def cand(dt):
+        return [b for b in c02.BIG_IDS + [2 ** 24, 3, 0] if (np.iinfo(dt).max >= b if not dt.startswith('float') else b <= 2 ** 53)]
+    za = rng.sample(cand(zd), rng.randint(1, 3))
+    ca = rng.sample(cand(vd), rng.randint(2, 4))
+    conv = lambda x, dt: x if not dt.startswith('float') else float(x)
+    zones = [[conv(rng.choice(za), zd) for _ in range(cols)] for _ in range(rows)]
+    values = [[conv(rng.choice(ca), vd) for _ in range(cols)] for _ in range(rows)]
+    present = c02.finite_zone_ids(zones)
+    cats = sorted({v for row in values for v in row})
+    zone_ids = None if rng.random() < 0.5 else [int(z) for z in sub_list(rng, present, [p + 1 for p in present[:1] if p + 1 not in present], False)]
+    cat_ids = None if rng.random() < 0.5 else [int(c) for c in sub_list(rng, cats, [c + 1 for c in cats[:1] if c + 1 not in cats], False)]
+    case = dict(fn='crosstab', zones=zones, zdtype=zd, vdtype=vd, zone_ids=zone_ids, values=values,
+                nodata=None if rng.random() < 0.6 else int(rng.choice(cats)), cat_ids=cat_ids,
+                agg='percentage' if rng.random() < 0.3 else 'count', ndim=2, backend='numpy', bigids=True,
+                zlayout='C', vlayout=c02.pick_layout(rng))
+    if rng.random() < 0.2 and (zone_ids is None or any(z in present for z in zone_ids)):
+        case['backend'] = 'dask'
+        case['chunks'] = [rng.randint(1, rows), rng.randint(1, cols)]
+    return case
+
+
 def run(ctx, n=None):
     rng = ctx.rng
     n = n or (680 if ctx.quick() else 8000)
     pending = []
     for i in range(n):
         one(ctx, gen_case(rng, ctx.quick(), i), pending)
+    for i in range(max(24, n // 25)):
+        one(ctx, gen_big_case(rng, i), pending)
     for case in exhaustive_cases(rng, 2 if ctx.quick() else 40):
         one(ctx, case, pending)
     if ctx.model is not None and pending:
